@@ -350,3 +350,7 @@ Proof.
   destruct (nth_error (pp_packet (fst s1)) (off + length (wire_of_labels ls) + 8 + 1)) as [b2|] eqn:E2; [|apply nth_error_None in E2; lia].
   cbn [bind]. eauto.
 Qed.
+
+(** a name the checker refuses changes nothing, whatever the object and the cursor *)
+Lemma set_raw_name_invalid nm s e : check_compressed_name nm 0 = Err e -> m_set_raw_name nm s = (s, Err e).
+Proof. intros H. unfold m_set_raw_name. unfold cbind at 1. unfold clift at 1. rewrite H. reflexivity. Qed.
